@@ -46,6 +46,7 @@ pub fn gen_read_cfg(rng: &mut Rng) -> LinkCfg {
         c.latency_unit_ns = *rng.pick(&[1_000u64, 100_000, 300_000, 1_000_000]);
         c.latency_steps = rng.range(1, 4) as u8;
     }
+    c.yield_after_io = rng.chance(1, 2);
     c
 }
 
@@ -58,6 +59,7 @@ pub fn gen_write_cfg(rng: &mut Rng) -> LinkCfg {
         c.latency_unit_ns = *rng.pick(&[1_000u64, 200_000, 1_000_000]);
         c.latency_steps = rng.range(1, 3) as u8;
     }
+    c.yield_after_io = rng.chance(1, 2);
     c
 }
 
